@@ -81,7 +81,7 @@ func (s1 jsonSet) diff(n JsonNode, path path, metadata []Metadata, strategy patc
 		default:
 			e = DiffElement{
 				Path:      path.clone(),
-				OldValues: nodeList(s1),
+				OldValues: nodeList(jsonArray(s1)),
 				NewValues: nodeList(n),
 			}
 		}
@@ -90,7 +90,7 @@ func (s1 jsonSet) diff(n JsonNode, path path, metadata []Metadata, strategy patc
 	if strategy == mergePatchStrategy && !s1.Equals(n, metadata...) {
 		e := DiffElement{
 			Path:      path.prependMetadataMerge(),
-			NewValues: nodeList(n),
+			NewValues: nodeList(jsonArray(s2)),
 		}
 		return append(d, e)
 	}
